@@ -266,6 +266,9 @@ def _arg_term(interp, v):
             ts.extend([_arg_term(interp, k), _arg_term(interp, x)])
         f = z3.Function(f"mk_dict{len(ts)}[{','.join(str(t.sort()) for t in ts)}]", *([t.sort() for t in ts] + [OBJ]))
         return f(*ts) if ts else z3.Const("empty_dict", OBJ)
+    if isinstance(v, VRange):
+        f = z3.Function("mk_range", z3.IntSort(), z3.IntSort(), OBJ)
+        return f(v.lo, v.hi)
     if isinstance(v, VList) and getattr(v, "term", None) is not None:
         return v.term
     if isinstance(v, VList) and getattr(v, "sid", None) is not None:
